@@ -1,0 +1,140 @@
+//go:build verif
+
+package bttest
+
+// Contracts for the write path of the Bigtable emulator (properties C01, C06, C12, C13):
+// (*table).updateRow, applyMutations, (*server).MutateRow, MutateRows, CheckAndMutateRow, ReadModifyWriteRow.
+// Checked by /verif/govc. Comments only.
+
+// ---------------------------------------------------------------------------------------------
+// Store invariant on cell order (the part of RepInv that applyMutations / ReadModifyWriteRow rely on:
+// appendOrReplaceCell and the DeleteFromColumn interval search need strictly descending timestamps).
+// ---------------------------------------------------------------------------------------------
+
+//@ spec colsDesc(cs []*btpb.Column) bool = forall j :: 0 <= j < len(cs) ==> descTS(cs[j].Cells)
+//@ spec rowDesc(r *btpb.Row) bool = forall i :: 0 <= i < len(r.Families) ==> colsDesc(r.Families[i].Columns)
+
+// ---------------------------------------------------------------------------------------------
+// (*table).updateRow: the single commit point of every single-row write.
+// It is the only function of the write path that reaches Rows.ReplaceOrInsert / Rows.Delete.
+// ---------------------------------------------------------------------------------------------
+
+//@ func (t *table) updateRow
+//@   property C01 C06
+//@   held t.mu w
+//@   requires rowOK(r)
+//@   requires famSep(r.Families)
+//@   requires rowDesc(r)
+//@   modifies r.Families, elems(r.Families), heap("F:bigtablepb.Family.Columns"), heap("T:*bigtablepb.Column")
+//@   ensures rowOK(r)
+//@   ensures rowDesc(r)
+//@   ensures forall i :: 0 <= i < len(r.Families) ==> len(r.Families[i].Columns) > 0
+//@   ensures forall i :: 0 <= i < len(r.Families) ==> colsNonEmpty(r.Families[i].Columns)
+//@   ensures forall i :: 0 <= i < len(r.Families) ==> colsSorted(r.Families[i].Columns)
+
+// ---------------------------------------------------------------------------------------------
+// applyMutations
+// ---------------------------------------------------------------------------------------------
+
+// Separation of the cell arrays of a row: distinct (family index, column index) positions hold distinct
+// column objects whose Cells slices do not share a backing array (nil excepted). Needed because
+// appendOrReplaceCell and the DeleteFromColumn compaction write the cell array in place.
+//@ spec colSep(r *btpb.Row) bool = forall i1, j1, i2, j2 :: 0 <= i1 < len(r.Families) && 0 <= j1 < len(r.Families[i1].Columns) && 0 <= i2 < len(r.Families) && 0 <= j2 < len(r.Families[i2].Columns) && (i1 != i2 || j1 != j2) ==> r.Families[i1].Columns[j1] != r.Families[i2].Columns[j2] && (obj(r.Families[i1].Columns[j1].Cells) != obj(r.Families[i2].Columns[j2].Cells) || obj(r.Families[i1].Columns[j1].Cells) == 0)
+
+// The API-level notion of an invalid mutation (property C01): unknown family, timestamp negative / beyond the
+// maximum / not a whole millisecond, inverted delete range, unknown mutation kind.
+//@ spec truncMs(t int64) int64 = t == -1 ? -1 : t - t % 1000
+//@ spec tsValid(ts int64) bool = 0 <= ts && ts <= 9223372036854775000 && ts % 1000 == 0
+//@ spec setCellTS(sc *btpb.Mutation_SetCell, now int64) int64 = sc.TimestampMicros == -1 ? truncMs(now) : sc.TimestampMicros
+//@ spec rangeBad(tr *btpb.TimestampRange) bool = tr != nil && (!tsValid(tr.StartTimestampMicros) || (tr.EndTimestampMicros != 0 && !tsValid(tr.EndTimestampMicros)) || (tr.EndTimestampMicros != 0 && tr.StartTimestampMicros >= tr.EndTimestampMicros))
+//@ spec setCellBad(sc *btpb.Mutation_SetCell, fs map[string]*btapb.ColumnFamily, now int64) bool = !(sc.FamilyName in fs) || !tsValid(setCellTS(sc, now))
+//@ spec delColBad(dc *btpb.Mutation_DeleteFromColumn, fs map[string]*btapb.ColumnFamily) bool = !(dc.FamilyName in fs) || rangeBad(dc.TimeRange)
+//@ spec knownKind(m *btpb.Mutation) bool = typeis(m.Mutation, *btpb.Mutation_SetCell_) || typeis(m.Mutation, *btpb.Mutation_DeleteFromColumn_) || typeis(m.Mutation, *btpb.Mutation_DeleteFromRow_) || typeis(m.Mutation, *btpb.Mutation_DeleteFromFamily_)
+//@ spec mutBad(m *btpb.Mutation, fs map[string]*btapb.ColumnFamily, now int64) bool = !knownKind(m) || (typeis(m.Mutation, *btpb.Mutation_SetCell_) && setCellBad(as(m.Mutation, *btpb.Mutation_SetCell_).SetCell, fs, now)) || (typeis(m.Mutation, *btpb.Mutation_DeleteFromColumn_) && delColBad(as(m.Mutation, *btpb.Mutation_DeleteFromColumn_).DeleteFromColumn, fs)) || (typeis(m.Mutation, *btpb.Mutation_DeleteFromFamily_) && !(as(m.Mutation, *btpb.Mutation_DeleteFromFamily_).DeleteFromFamily.FamilyName in fs))
+
+//@ func applyMutations
+//@   property C01 C06 C12
+//@   held tbl.mu w
+//@   requires tbl != nil
+//@   requires rowOK(r)
+//@   requires famSep(r.Families)
+//@   requires rowDesc(r)
+//@   requires colSep(r)
+//@   requires forall k :: 0 <= k < len(muts) ==> muts[k] != nil
+//@   modifies r.Families, heap("T:*bigtablepb.Family"), heap("F:bigtablepb.Family.Columns"), heap("T:*bigtablepb.Column"), heap("F:bigtablepb.Column.Cells"), heap("T:*bigtablepb.Cell")
+//@   ensures result != nil ==> exists k :: 0 <= k < len(muts) && old(mutBad(muts[k], tbl.def.ColumnFamilies, now))
+//@   ensures result == nil ==> forall k :: 0 <= k < len(muts) ==> old(!mutBad(muts[k], tbl.def.ColumnFamilies, now))
+//@   ensures rowOK(r)
+//@   ensures result == nil ==> famSep(r.Families)
+//@   ensures result == nil ==> rowDesc(r)
+//@   ensures result == nil ==> colSep(r)
+//@   loop 1 invariant forall k :: 0 <= k <= idx1 ==> old(knownKind(muts[k]))
+//@   loop 1 invariant forall k :: 0 <= k <= idx1 ==> old(typeis(muts[k].Mutation, *btpb.Mutation_SetCell_) ==> !setCellBad(as(muts[k].Mutation, *btpb.Mutation_SetCell_).SetCell, tbl.def.ColumnFamilies, now))
+//@   loop 1 invariant forall k :: 0 <= k <= idx1 ==> old(typeis(muts[k].Mutation, *btpb.Mutation_DeleteFromColumn_) ==> !delColBad(as(muts[k].Mutation, *btpb.Mutation_DeleteFromColumn_).DeleteFromColumn, tbl.def.ColumnFamilies))
+//@   loop 1 invariant forall k :: 0 <= k <= idx1 ==> old(typeis(muts[k].Mutation, *btpb.Mutation_DeleteFromFamily_) ==> (as(muts[k].Mutation, *btpb.Mutation_DeleteFromFamily_).DeleteFromFamily.FamilyName in tbl.def.ColumnFamilies))
+//@   loop 1 invariant frameOld(heap("F:bigtablepb.Cell.TimestampMicros"), heap("F:bigtablepb.Cell.Value"), heap("T:*bigtablepb.TimestampRange"), heap("T:[]*bigtablepb.Cell"))
+//@   loop 1 invariant frameOld(heap("F:bigtablepb.Mutation_DeleteFromColumn.TimeRange"), heap("F:bigtablepb.TimestampRange.StartTimestampMicros"), heap("F:bigtablepb.TimestampRange.EndTimestampMicros"))
+//@   loop 1 invariant frameOld(heap("F:bigtablepb.Column.Qualifier"), heap("F:bigtablepb.Family.Name"))
+//@   loop 1 invariant rowOK(r)
+//@   loop 1 invariant famSep(r.Families)
+//@   loop 1 invariant rowDesc(r)
+
+// ---------------------------------------------------------------------------------------------
+// RPC handlers (entry points: req is wire-decoded and non-nil; no lock is held on entry)
+// Failure atomicity (C06): (*table).updateRow is the only function on these paths that reaches
+// Rows.ReplaceOrInsert / Rows.Delete; it requires the store invariant (famSep, rowDesc), which applyMutations
+// promises only when it returns nil - so a handler that called updateRow after a failed applyMutations would
+// fail updateRow's precondition. See the report for the discussion of this choice.
+// ---------------------------------------------------------------------------------------------
+
+//@ func (s *server) MutateRow
+//@   property C01 C06
+//@   requires req != nil
+//@   requires s.clock != nil
+//@   requires nolocks()
+//@   modifies heap("F:bigtablepb.Row.Families"), heap("T:*bigtablepb.Family"), heap("F:bigtablepb.Family.Columns"), heap("T:*bigtablepb.Column"), heap("F:bigtablepb.Column.Cells"), heap("T:*bigtablepb.Cell"), heap("F:bttest.table.lastWriteNanos"), heap("T:int64")
+//@   ensures (result0 == nil) <==> (result1 != nil)
+//@   ensures !old(req.TableName in s.tables) ==> result1 != nil && uf_grpcCode(result1) == codes.NotFound
+//@   ensures nolocks()
+
+//@ func (s *server) MutateRows
+//@   property C01 C06
+//@   requires req != nil
+//@   requires stream != nil
+//@   requires s.clock != nil
+//@   requires nolocks()
+//@   modifies heap("F:bigtablepb.Row.Families"), heap("T:*bigtablepb.Family"), heap("F:bigtablepb.Family.Columns"), heap("T:*bigtablepb.Column"), heap("F:bigtablepb.Column.Cells"), heap("T:*bigtablepb.Cell"), heap("F:bttest.table.lastWriteNanos"), heap("T:int64")
+//@   ensures !old(req.TableName in s.tables) ==> result != nil && uf_grpcCode(result) == codes.NotFound
+//@   ensures nolocks()
+//@   loop 1 invariant res != nil && fresh(res) && len(res.Entries) == len(req.Entries) && fresh(res.Entries)
+//@   loop 1 invariant held(tbl.mu) == 2
+//@   loop 1 invariant forall k :: 0 <= k <= idx1 ==> res.Entries[k] != nil && res.Entries[k].Index == k && res.Entries[k].Status != nil
+
+//@ func (s *server) CheckAndMutateRow
+//@   property C06 C12
+//@   requires req != nil
+//@   requires s.clock != nil
+//@   requires nolocks()
+//@   modifies heap("F:bigtablepb.Row.Families"), heap("T:*bigtablepb.Family"), heap("F:bigtablepb.Family.Columns"), heap("T:*bigtablepb.Column"), heap("F:bigtablepb.Column.Cells"), heap("T:*bigtablepb.Cell"), heap("F:bttest.table.lastWriteNanos"), heap("T:int64")
+//@   ensures (result0 == nil) <==> (result1 != nil)
+//@   ensures !old(req.TableName in s.tables) ==> result1 != nil && uf_grpcCode(result1) == codes.NotFound
+//@   ensures result0 != nil ==> fresh(result0)
+//@   ensures nolocks()
+
+//@ func (s *server) ReadModifyWriteRow
+//@   property C06 C13
+//@   requires req != nil
+//@   requires s.clock != nil
+//@   requires nolocks()
+//@   modifies heap("F:bigtablepb.Row.Families"), heap("T:*bigtablepb.Family"), heap("F:bigtablepb.Family.Columns"), heap("T:*bigtablepb.Column"), heap("F:bigtablepb.Column.Cells"), heap("T:*bigtablepb.Cell"), heap("F:bttest.table.lastWriteNanos"), heap("T:int64")
+//@   ensures (result0 == nil) <==> (result1 != nil)
+//@   ensures !old(req.TableName in s.tables) ==> result1 != nil && uf_grpcCode(result1) == codes.NotFound
+//@   ensures result0 != nil ==> fresh(result0) && result0.Row != nil
+//@   ensures nolocks()
+//@   loop 1 invariant held(tbl.mu) == 2
+//@   loop 1 invariant rowOK(r) && fresh(r)
+//@   loop 1 invariant famSep(r.Families)
+//@   loop 1 invariant rowDesc(r)
+//@   loop 1 invariant rowOK(resultRow) && fresh(resultRow)
+//@   loop 1 invariant famSep(resultRow.Families)
+//@   loop 1 invariant r != resultRow
